@@ -513,6 +513,9 @@ def to_coq(spec, infos, impl, phot):
             emom = None if all(not math.isfinite(v) for v in six) else Some([fl(v) for v in six])
             muc = impl['moments_central'][i]
             ps, pe, pa, pm = phot[i]
+            cv = impl['covariance'][i]
+            cv3 = [cv[0, 0], cv[0, 1], cv[1, 1]]
+            ecov = Some(tuple(fl(v) for v in cv3)) if all(math.isfinite(v) for v in cv3) else None
             es.append(Raw('(mkexp ' + ' '.join(coq(v) for v in [
                 fl(impl['sum'][i]), fl(impl['sum_err'][i]), fl(impl['sum_aper_area'][i]),
                 fl(impl['center_aper_area'][i]), fl(impl['min'][i]), fl(impl['max'][i]), fl(impl['mean'][i]),
@@ -521,7 +524,7 @@ def to_coq(spec, infos, impl, phot):
                 (int(impl['bbox_xmin'][i]), int(impl['bbox_xmax'][i]), int(impl['bbox_ymin'][i]),
                  int(impl['bbox_ymax'][i])),
                 fl(ps), fl(pe) if pe is not None else None, fl(pa),
-                Some([[bool(v) for v in r] for r in pm])]) + ')'))
+                Some([[bool(v) for v in r] for r in pm]), ecov]) + ')'))
         exp = Some(es)
     return coq((scales, scene, apers, lbz, exp))
 
@@ -578,6 +581,21 @@ def set_oracle(spec, p, data, mask):
             st['xcentroid'] = st['ycentroid'] = math.nan
             st['cov'] = None
     return pts, st
+
+
+def exact_cov_det(pts):
+    """sign-exact determinant (times a positive factor) of the flux-weighted covariance of the pixel set,
+    in rational arithmetic on the given doubles; None when the total is zero"""
+    v = [Fraction(t[2]) for t in pts]
+    s0 = sum(v)
+    if s0 == 0:
+        return None
+    sx = sum(t[1] * w for t, w in zip(pts, v))
+    sy = sum(t[0] * w for t, w in zip(pts, v))
+    sxx = sum(t[1] * t[1] * w for t, w in zip(pts, v))
+    syy = sum(t[0] * t[0] * w for t, w in zip(pts, v))
+    sxy = sum(t[0] * t[1] * w for t, w in zip(pts, v))
+    return (s0 * sxx - sx * sx) * (s0 * syy - sy * sy) - (s0 * sxy - sx * sy) ** 2
 
 
 def oracles(spec, impl=None, infos=None, phot=None, counts=None):
@@ -653,6 +671,15 @@ def oracles(spec, impl=None, infos=None, phot=None, counts=None):
             if lat_data and not same(impl['center_aper_area'][i], st['npix']):
                 viol.append(('ApertureStats.center_aper_area:set-statistic', 'center_aper_area != number of pixels '
                              'of the set', dict(where, got=impl['center_aper_area'][i], want=st['npix'])))
+            # covariance must not be NaN when the exact determinant of the set's covariance is >= 0
+            # (e.g. collinear pixels: exactly singular; the float determinant can round below zero)
+            ex = exact_cov_det(pts)
+            if ex is not None and ex >= 0 and not all(math.isfinite(v) for v in
+                                                      (impl['covar_sigx2'][i], impl['covar_sigxy'][i], impl['covar_sigy2'][i])):
+                viol.append(('ApertureStats.covariance:nan-for-singular-covariance',
+                             'covariance (and every shape value) is NaN although the pixel set has a non-zero total and '
+                             'the exact determinant of its covariance is ' + ('zero (collinear pixels)' if ex == 0 else 'positive'),
+                             dict(where, npix=st['npix'])))
             # centroid: decided only when the total flux is not a cancellation artefact
             sabs = float(np.sum(np.abs([t[2] for t in pts])))
             if st['total'] != 0 and abs(st['total']) > 1e-6 * sabs:
@@ -797,7 +824,9 @@ def run(ctx):
         "sum_method='exact' on curved apertures has non-dyadic weights: those sums are compared within 2^-40 "
         'relative (in Coq) and 1e-12 (Python), everything else exactly / correctly rounded']
     ctx.cov['partial_clauses'] = [
-        'shape values (semimajor_sigma ... cxy): tested against the moments of the pixel set only where the '
+        'covariance after the 1/12 regularisation loop: mirrored in the Coq model and compared (2^-40) where no '
+        'float decision (det < 0, det < 1/144) is within 2^-30 of a tie; eigenvalues and the derived shape values '
+        '(semimajor_sigma ... cxy) are tested in Python against the moments of the pixel set only where the '
         'covariance needs no regularisation',
         'sigma clipping: the theorems take the clip mask as given and assume it contains the input mask']
     n = 320 if ctx.tier == 'quick' else 2400
